@@ -33,6 +33,10 @@ func init() {
 			{ID: "C16.12", Desc: "the value slices of the caller's request header are never written", Run: func(c *Ctx) { ruleCallerHeaderValuesUntouched(c, "C16.12") }, MinSites: 1},
 			{ID: "C16.13", Desc: "the body handed to the caller is not read again by the cache", Run: func(c *Ctx) { ruleBodyHandedBackLast(c, "C16.13") }, MinSites: 1},
 			{ID: "C16.14", Desc: "the key function does not write through the caller's URL", Run: func(c *Ctx) { ruleKeyFunctionLeavesURLAlone(c, "C16.14") }, MinSites: 1},
+			{ID: "C16.15", Desc: "a background 304 is never merged into an entry another exchange stored meanwhile (fields of one representation over the body of another)", Run: func(c *Ctx) { ruleBackground304SelectsEntry(c, "C16.15") }, MinSites: 1},
+			{ID: "C16.16", Desc: "parsed directive maps are not shared between exchanges (a memoised map is read and written by concurrent calls)", Run: func(c *Ctx) { ruleDirectiveMapsPrivate(c, "C16.16") }, MinSites: 2},
+			{ID: "C16.17", Desc: "no append into a package-level slice on the exchange (log records built in shared memory)", Run: func(c *Ctx) { ruleNoAppendToSharedSlice(c, "C16.17") }, MinSites: 1},
+			{ID: "C16.18", Desc: "a foreground 304 is merged into the entry it was asked about (no re-read between the request and the merge)", Run: func(c *Ctx) { ruleValidatedEntryIsSentEntry(c, "C16.18") }, MinSites: 1},
 		},
 	})
 }
